@@ -207,7 +207,7 @@ theorem isUpper_lowerChar (c : Nat) : isUpper (lowerChar c) = false := by
   · simp only [h, ↓reduceIte]
     simp only [isUpper, Bool.and_eq_true, decide_eq_true_eq] at h
     simp [isUpper]; omega
-  · simpa [h] using h
+  · simp [h]
 
 theorem asciiLower_no_upper (s : Bytes) : ∀ c ∈ asciiLower s, isUpper c = false := by
   intro c hc
